@@ -15,7 +15,7 @@ import z3
 from . import sorts as S
 
 _ANN = {"int": "int", "bool": "bool", "str": "str", "bytes": "bytes", "list": "list",
-        "tuple": "tuple", "dict": "dict", "object": "py", "float": "float", "set": "set"}
+        "tuple": "tuple", "dict": "dict", "object": "py", "float": "float", "set": "set", "bv64": "bv64"}
 
 
 from .dsl import spec, opaque, axiom, lemma_fn, IDENTITY_FNS, dset, seq_items  # noqa: F401
@@ -55,6 +55,10 @@ def coerce(v, tag):
         raise TypeError(f"cannot pass {v!r} to spec function")
     if v.ty == tag:
         return v.t
+    if tag == "bv64":
+        return S.to_bv64(v)
+    if v.ty == "bv64" and tag == "int":
+        return S.bv_to_int_term(v.t)
     if v.ty == "py":
         return S.unbox(v.t, tag).t
     if v.ty == "bool" and tag == "int":
@@ -78,6 +82,8 @@ def _annname(a):
 def _sort(tag):
     if tag in S.BOXED_TAGS:
         return S.Py
+    if tag == "bv64":
+        return S.BV64
     return S.NATIVE[tag][2]
 
 
